@@ -730,6 +730,36 @@ class Gen:
             ret = T("u64")
         return {"ret": ret, "body": block(ss, self.expr(ret, scope, 2))}
 
+    def spill_case(self, name, nlive=56):
+        """Many simultaneously live values (more than the allocatable registers): forces spilling."""
+        r = self.r
+        ss = []
+        names = []
+        for k in range(nlive):
+            x = self.fresh("s")
+            e = {"k": "call", "f": "id_u64", "args": [lit("u64", r.randint(0, 1 << 20))]}
+            if names and r.random() < 0.5:
+                e = {"k": "bin", "op": r.choice(["xor", "or", "and"]), "l": e, "r": {"k": "var", "x": r.choice(names)}}
+            ss.append({"k": "let", "x": x, "mut": False, "ty": T("u64"), "e": e})
+            names.append(x)
+        # a loop in the middle keeps everything live across a back edge
+        i = self.fresh("i")
+        acc = self.fresh("acc")
+        ss.append({"k": "let", "x": acc, "mut": True, "ty": T("u64"), "e": lit("u64", 0)})
+        ss.append({"k": "let", "x": i, "mut": True, "ty": T("u64"), "e": lit("u64", 0)})
+        body = [{"k": "assign", "x": i, "path": [], "e": {"k": "bin", "op": "add", "l": {"k": "var", "x": i}, "r": lit("u64", 1)}},
+                {"k": "assign", "x": acc, "path": [], "e": {"k": "bin", "op": "xor", "l": {"k": "var", "x": acc},
+                                                           "r": {"k": "bin", "op": "and", "l": {"k": "var", "x": r.choice(names)}, "r": {"k": "var", "x": i}}}}]
+        ss.append({"k": "while", "c": {"k": "bin", "op": "lt", "l": {"k": "var", "x": i}, "r": lit("u64", 3)}, "b": block(body)})
+        # use all of them afterwards, in reverse order
+        e = {"k": "var", "x": acc}
+        for x in reversed(names):
+            e = {"k": "bin", "op": r.choice(["xor", "or"]), "l": e, "r": {"k": "var", "x": x}}
+        ss.append({"k": "log", "e": e})
+        for x in r.sample(names, 6):
+            ss.append({"k": "log", "e": {"k": "var", "x": x}})
+        return {"name": name, "body": block(ss)}
+
     def case(self, name, nstmts=None):
         scope = Scope(None)
         n = nstmts if nstmts is not None else self.r.randint(3, 9)
